@@ -413,7 +413,19 @@ func GenPlanned(r *simrt.RNG, cfg GenCfg) World {
 			os.Impl = im[r.Intn(len(im))]
 		}
 		c.Out = []Slot{os}
-		if cfg.MultiOut && r.Chance(1, 4) {
+		if os.Name == "" && os.Sub != "" && c.OutForm != FormPositional && !IsIface(os.Type) && r.Chance(1, 3) {
+			// a sibling type-only output of the same type under another subtype
+			sib := Slot{Label: Label{Type: os.Type, Sub: Subs[0]}}
+			if os.Sub == Subs[0] {
+				sib.Sub = Subs[1]
+			}
+			if r.Bool() {
+				c.Out = []Slot{os, sib}
+			} else {
+				c.Out = []Slot{sib, os}
+			}
+		}
+		if len(c.Out) == 1 && cfg.MultiOut && r.Chance(1, 4) {
 			extra := g.slots(1, c.OutForm, true)
 			if len(extra) == 1 && !(extra[0].Name == os.Name && os.Name != "") && !(extra[0].Name == "" && os.Name == "" && extra[0].Type == os.Type) {
 				c.Out = append(c.Out, extra[0])
